@@ -483,20 +483,20 @@ def load(f, **options):  # type: (typing.IO, **typing.Any) -> canmatrix.CanMatri
                     display_decimal_places = None
 
                     if tmp_mux == "Mux":
-                        multiplexor = temp_array[2]
-                        if multiplexor[-1] == 'h':
-                            multiplexor = int(multiplexor[:-1], 16)
+                        # nothing is changed before the whole line has been parsed
+                        mux_value = temp_array[2]
+                        if mux_value[-1] == 'h':
+                            mux_value = int(mux_value[:-1], 16)
                         else:
-                            multiplexor = int(multiplexor)
-                        if multiplexor in frame.mux_names:
+                            mux_value = int(mux_value)
+                        if mux_value in frame.mux_names:
                             raise DuplicateMuxIdError(
-                                id=multiplexor,
-                                old=frame.mux_names[multiplexor],
+                                id=mux_value,
+                                old=frame.mux_names[mux_value],
                                 new=sig_name,
                                 line_number=line_count,
                                 line=line,
                             )
-                        frame.mux_names[multiplexor] = sig_name
                         # switches (-m, ...) follow the selector value: name, start/size, value, switches
                         index_offset = 1
 
@@ -563,6 +563,8 @@ def load(f, **options):  # type: (typing.IO, **typing.Any) -> canmatrix.CanMatri
                                 # motorola set/convert start bit
                                 signal.set_startbit(start_bit)
                             frame.add_signal(signal)
+                        multiplexor = mux_value
+                        frame.mux_names[multiplexor] = sig_name
                         signal.comments[multiplexor] = comment
 
                     else:
